@@ -109,8 +109,8 @@ structure Track where
   chain : Nat := 0                  -- produce requests of the current batch
   retryTids : List Tid := []        -- timers set while a produce result was being handled
   produced : List Sid := []         -- sends that have been in a produce request
-  acct : Bool := true               -- every result so far accounted for its request
-  acct0 : Bool := true              -- every result so far had the shape of an answer to a request without acks
+  ex1 : List Sid := []              -- sends of the batches some result of which did NOT account for its request (C07)
+  ex0 : List Sid := []              -- … did not have the shape of an answer to a request without acknowledgements
   stopped : Bool := false
   timersSinceReset : Nat := 0
   lastP : List (TP × List Sid) := []   -- last payload seen per topic/partition
@@ -119,6 +119,9 @@ structure Track where
   deriving Repr
 
 def isCompletion (e : Ev) : Bool := (completionOf e).isSome
+
+/-- the sends of the batch in flight: of the last payloads seen for the batch's topic/partitions -/
+def batchSids (t : Track) : List Sid := (t.lastP.filter (fun e => t.batchTps.contains e.1)).flatMap (·.2)
 
 /-- is the produce observed in this step a RETRY (it is sent by a timer that was set while the
     result of the previous attempt was being handled)? -/
@@ -185,8 +188,10 @@ def trackEv (pre : Snap) (t : Track) (e : Ev) : Track :=
     | _ => t
   match (if effective t e then completionOf e else none), t0.cur, t0.curRes with
   | some r, some (_, ps), none =>
-    { t0 with curRes := some r, acct := t0.acct && accounts ps r,
-              acct0 := t0.acct0 && isAcks0Shape r,
+    { t0 with curRes := some r,
+              -- the client broke its contract for THIS batch: its sends (only they) are exempt from "fires"
+              ex1 := if accounts ps r then t0.ex1 else batchSids t0 ++ t0.ex1,
+              ex0 := if isAcks0Shape r then t0.ex0 else batchSids t0 ++ t0.ex0,
               acked := ((respsOf r).filter (·.error = 0)).map (·.tp) ++ t0.acked }
   | _, _, _ => t0
 
